@@ -224,20 +224,24 @@ func runC07(c *Ctx) {
 			if !isNil(r.Results[1]) {
 				continue
 			}
-			// last store to decodeFrame dominating the return
-			var last *ssa.Store
-			for _, a := range storesTo(dec, decodeFrameF) {
-				st := a.Instr.(*ssa.Store)
-				if dominatesInstr(st, r) && (last == nil || dominatesInstr(last, st)) {
-					last = st
+			// last store to decodeFrame dominating the return (in Decode, or in a helper the re-slice was moved to)
+			var lastD *deepStore
+			for _, d := range deepStoresTo(dec, decodeFrameF) {
+				d := d
+				if isNil(d.Store.Val) {
+					continue
+				}
+				if dominatesInstr(d.Site, r) && (lastD == nil || dominatesInstr(lastD.Site, d.Site)) {
+					lastD = &d
 				}
 			}
 			retLoads := loadOfField(r.Results[0], decodeFrameF)
-			if last == nil || !retLoads {
+			if lastD == nil || !retLoads {
 				c.bad(dec, "returned frame", exitPos(r), "the frame returned on success is not the decodeFrame built from the prepared bytes")
 				continue
 			}
-			sl, ok := stripConv(last.Val).(*ssa.Slice)
+			last := lastD.Site
+			sl, ok := stripConv(lastD.Store.Val).(*ssa.Slice)
 			okShape := ok && sl.Low == nil && sl.High != nil
 			if okShape {
 				if dc, ok := strip(sl.X).(*ssa.Call); !ok || !isCallToFn(dc, data) {
@@ -248,22 +252,15 @@ func runC07(c *Ctx) {
 				c.bad(dec, "returned frame", last.Pos(), "the frame returned on success is not src.Data()[:k]")
 				continue
 			}
+			high := lastD.translate(sl.High)
 			// k is the argument of a PrepareRead whose success guards the store
-			prepared := false
-			for _, pc := range pcalls {
-				if pc.Common().Args[1] == sl.High && guardedNil(last.Block(), pc.(ssa.Value)) {
-					prepared = true
-				}
-			}
+			prepared := preparedFor(dec, prepareRead, lastD, high)
 			c.check(prepared, dec, "returned frame", last.Pos(), "frame length is exactly the amount PrepareRead granted", "the frame returned on success is sliced to a length other than the one PrepareRead just granted: the decoder yields bytes it did not receive or leaves part of the frame behind")
-			sum := leafSummary(additiveLeaves(sl.High))
+			sum := leafSummary(additiveLeaves(high))
 			want := "2+4+ExtendedPayloadLengthBytes()+PayloadLength()"
 			c.check(sum == want, dec, "frame length", last.Pos(), "frame length = "+sum, "the frame length is computed as "+sum+", expected "+want+" (header + extended length + mask + payload): the next frame starts at the wrong offset")
 			// mask bytes only when masked
 			maskedOK := false
-			for _, l := range additiveLeaves(sl.High) {
-				_ = l
-			}
 			eachInstr(dec, func(in ssa.Instruction) {
 				bo, ok := in.(*ssa.BinOp)
 				if !ok || bo.Op != token.ADD || !isConstInt(bo.Y, 4) {
@@ -362,25 +359,7 @@ func runC07(c *Ctx) {
 						high := last.translate(sl.High)
 						got = leafSummary(additiveLeaves(high))
 						// prepared for that amount?
-						prepared := false
-						for _, pc := range deepCallsTo(dec, prepareRead) {
-							// the same frame: both in Decode, or both in the same invocation of a helper
-							if pc.Call.Parent() != last.Store.Parent() || (pc.Call.Parent() != dec && pc.Site != last.Site) {
-								continue
-							}
-							if !guardedNil(last.Store.Block(), pc.Call) {
-								continue
-							}
-							amount := pc.translate(pc.Call.Call.Args[1])
-							if amount == high {
-								prepared = true
-							}
-							if k1, ok := constInt(amount); ok {
-								if k2, ok := constInt(high); ok && k1 == k2 {
-									prepared = true
-								}
-							}
-						}
+						prepared := preparedFor(dec, prepareRead, last, high)
 						// through a helper: the accessor runs only when the helper reported success, and the helper reports
 						// success only after the re-slice
 						if hc, viaHelper := last.Site.(*ssa.Call); viaHelper && ssa.Instruction(hc) != ssa.Instruction(last.Store) {
@@ -627,3 +606,34 @@ func checkLengthTables(c *Ctx, prop string) {
 }
 
 func pcallsAll(fn *ssa.Function, callee *ssa.Function) []ssa.CallInstruction { return callsToFn(fn, callee) }
+
+// preparedFor: the re-slice `last` (a store of Data()[:high] to decodeFrame, in dec or in a helper called from dec) is
+// guarded by the success of a PrepareRead for exactly `high` bytes (high already expressed in dec's frame).
+func preparedFor(dec, prepareRead *ssa.Function, last *deepStore, high ssa.Value) bool {
+	for _, pc := range deepCallsTo(dec, prepareRead) {
+		amount := pc.translate(pc.Call.Call.Args[1])
+		switch {
+		case pc.Call.Parent() == last.Store.Parent() && (pc.Call.Parent() == dec || pc.Site == last.Site):
+			// the same frame: both in Decode, or both in the same invocation of a helper
+			if !guardedNil(last.Store.Block(), pc.Call) {
+				continue
+			}
+		case pc.Call.Parent() == dec:
+			// PrepareRead in Decode, the re-slice in a helper called under its success
+			if !guardedNil(last.Site.Block(), pc.Call) {
+				continue
+			}
+		default:
+			continue
+		}
+		if amount == high {
+			return true
+		}
+		if k1, ok := constInt(amount); ok {
+			if k2, ok := constInt(high); ok && k1 == k2 {
+				return true
+			}
+		}
+	}
+	return false
+}
